@@ -593,6 +593,36 @@ func (w *world) snapshot(l list.AclList) snap {
 	return s
 }
 
+// snapshotNV: reduced observation for the non-validating stream — only lookups by key, because
+// zero-valued map entries (created when a non-validating list applies a record consensus would have
+// refused) carry no PubKey / Id to print.
+func (w *world) snapshotNV(l list.AclList) string {
+	st := l.AclState()
+	perms := make([]int, nAccounts)
+	pend := make([]string, nAccounts)
+	for i, k := range w.c.acc {
+		perms[i] = int(st.Permissions(k.SignKey.GetPublic()))
+		pend[i] = "-"
+		if r, err := st.Record(k.SignKey.GetPublic()); err == nil {
+			pend[i] = strconv.Itoa(w.ridx(r.RecordId))
+			if r.RecordId == "" { // pending entry whose request record is gone: the id is still in the map
+				pend[i] = "?"
+			}
+		}
+	}
+	var keys []int
+	for id := range st.Keys() {
+		keys = append(keys, w.ridx(id))
+	}
+	sort.Ints(keys)
+	opt := "-"
+	if o := st.CurrentOptions(); o != nil {
+		opt = b01(o.DeleteRestricted)
+	}
+	return fmt.Sprintf("h=%d perms=%s pend=%s ninv=%d nreq=%d K[%s] cur=%d O=%s", w.ridx(l.Head().Id), ints(perms), strings.Join(pend, ","),
+		len(st.Invites()), len(st.RequestIds()), ints(keys), w.ridx(st.CurrentReadKeyId()), opt)
+}
+
 func sortedKeys[V any](m map[int]V) []int {
 	k := make([]int, 0, len(m))
 	for x := range m {
